@@ -114,6 +114,11 @@ func (fr *Frame) execCall(st *State, cc *ssa.CallCommon, instr ssa.Instruction, 
 		fr.oblige(st, "nil-func-call", fr.describe(cc.Value), nn, nil, pos)
 		fr.assume(st, nn)
 	}
+	if n, ok := cc.Value.Type().(*types.Named); ok && n.Obj().Pkg() != nil && n.Obj().Pkg().Path() == "context" &&
+		(n.Obj().Name() == "CancelFunc" || n.Obj().Name() == "CancelCauseFunc") {
+		fr.top.note("calling a context cancel function is assumed to have no effect on the program's heap")
+		return fr.freshResults(st, cc.Signature(), "cancel")
+	}
 	fr.top.note("call of unknown function value " + fr.describe(cc.Value) + " in " + fr.fn.Name() + ": heap havocked")
 	return fr.havocCall(st, cc.Signature(), "dyn")
 }
